@@ -27,7 +27,7 @@ func TestVerifC09(t *testing.T) {
 		Assumptions: []string{"runs as root; the writable twin is the definition of 'would modify' and of 'keeps working'", "atime is not part of the snapshot"},
 		Units: func(tier vfTier, seed uint64) int {
 			if tier == vfThorough {
-				return 2 + 40
+				return 2 + 800
 			}
 			return 2 + 2
 		},
